@@ -162,6 +162,7 @@ struct XmlKnobs
     bool comment_in_text{false};        // separately reported family (F-C04-1)
     bool project_root{false};           // <project> instead of <nta>   (not used by default)
     bool crlf{false};                   // CRLF line ends inside text blocks
+    int imports_elem{0};                // 1: <imports>text</imports>, 2: <imports/> as the first child (optional in the DTD)
     int big_text_lines{0};              // > 0: the global declaration starts with a comment of that many lines (a text node of
                                         // tens of KB: libxml2 refills its input buffer several times inside one text node)
 };
@@ -288,6 +289,9 @@ enum ModelFault {
     MF_URGENT_AND_COMMITTED,  // a location flagged both urgent and committed (diagnosed; the first flag in document order stays)
     MF_DYNAMIC_PARAM_MISMATCH,  // a dynamic template declared with another parameter list than its definition has
     MF_RANDOM_INIT,      // "double zrnd = random(5);": a random built-in where a compile-time value is demanded
+    MF_GLOBAL_DECL_IN_TEMPLATE,  // a declaration that only makes sense globally (dynamic template, process, instantiation,
+                                 // priorities, update hooks) inside a template's local <declaration>
+    MF_BAD_ITERATION_TYPE,  // "for (zi : bool)" / "for (zi : clock)" in a function body (diagnosed by the type checker)
     MF_COUNT
 };
 const char* model_fault_name(int);
